@@ -6,6 +6,7 @@
 package bfs
 
 import (
+	"crypto/sha256"
 	"sort"
 	"sync"
 	"time"
@@ -26,7 +27,9 @@ type Engine[S any, O any] struct {
 	Workers  int
 	MaxDepth int
 	MaxTrans int64
-	Deadline time.Time
+	// MaxStates bounds memory: the search stops (non-exhaustive) when more distinct states have been stored (0 = 1.2 M).
+	MaxStates int64
+	Deadline  time.Time
 	Init     func() S
 	InitKey  string
 	// Enabled lists the operations to try in a state, simplest first.
@@ -82,7 +85,17 @@ func (e *Engine[S, O]) Run() *Result[O] {
 		e.MaxViolations = 8
 	}
 	res := &Result[O]{Name: e.Name, Exhaustive: true, Outcomes: map[string]int64{}}
-	seen := map[string]struct{}{e.InitKey: {}}
+	if e.MaxStates <= 0 {
+		e.MaxStates = 1_200_000
+	}
+	// keys are stored as 128-bit hashes of the canonical dump (collision probability ~2^-128 per pair)
+	hkey := func(k string) [16]byte {
+		h := sha256.Sum256([]byte(k))
+		var o [16]byte
+		copy(o[:], h[:16])
+		return o
+	}
+	seen := map[[16]byte]struct{}{hkey(e.InitKey): {}}
 	frontier := []node[S, O]{{hist: nil, st: e.Init()}}
 	res.States = 1
 	vioSeen := map[string]bool{}
@@ -126,6 +139,9 @@ func (e *Engine[S, O]) Run() *Result[O] {
 					if (e.MaxTrans > 0 && res.Transitions+trans >= e.MaxTrans) || (!e.Deadline.IsZero() && time.Now().After(e.Deadline)) {
 						stop = true
 					}
+					if res.States+trans/2 > e.MaxStates*2 {
+						stop = true // successors are merged after the depth is expanded: bound the unmerged backlog too
+					}
 					mu.Unlock()
 				}
 			}(w)
@@ -157,10 +173,11 @@ func (e *Engine[S, O]) Run() *Result[O] {
 					}
 					continue
 				}
-				if _, ok := seen[s.res.Key]; ok {
+				hk := hkey(s.res.Key)
+				if _, ok := seen[hk]; ok {
 					continue
 				}
-				seen[s.res.Key] = struct{}{}
+				seen[hk] = struct{}{}
 				res.States++
 				if s.res.NoExtend {
 					continue
@@ -171,6 +188,10 @@ func (e *Engine[S, O]) Run() *Result[O] {
 				next = append(next, node[S, O]{hist: h, st: s.res.Next})
 			}
 		}
+		if res.States > e.MaxStates && complete {
+			complete = false
+			res.CapHit = "state cap"
+		}
 		res.PerDepth = append(res.PerDepth, int64(len(next)))
 		if len(next) > 0 {
 			res.SampleHists = nil
@@ -180,10 +201,14 @@ func (e *Engine[S, O]) Run() *Result[O] {
 		}
 		if !complete {
 			res.Exhaustive = false
-			if e.MaxTrans > 0 && res.Transitions >= e.MaxTrans {
-				res.CapHit = "transition cap"
-			} else {
-				res.CapHit = "time budget"
+			if res.CapHit == "" {
+				if e.MaxTrans > 0 && res.Transitions >= e.MaxTrans {
+					res.CapHit = "transition cap"
+				} else if res.States > e.MaxStates {
+					res.CapHit = "state cap"
+				} else {
+					res.CapHit = "time budget"
+				}
 			}
 			break
 		}
